@@ -12,6 +12,10 @@ def name_str(i):
         return ""
     if i >= 1000:
         return "c,%d" % i
+    if 500 <= i < 600:
+        return "v%d" % (i - 500)       # 500 + k and 600 + k differ in ASCII case only
+    if 600 <= i < 700:
+        return "V%d" % (i - 600)
     return "p%d" % i
 
 
@@ -20,6 +24,10 @@ def name_id(s):
         return 0
     if s.startswith("c,"):
         return int(s[2:])
+    if s.startswith("v"):
+        return 500 + int(s[1:])
+    if s.startswith("V"):
+        return 600 + int(s[1:])
     return int(s[1:])
 
 
